@@ -5,6 +5,8 @@ import (
 	metav1 "k8s.io/apimachinery/pkg/apis/meta/v1"
 
 	asv1 "github.com/pingcap/advanced-statefulset/client/apis/apps/v1"
+
+	"verifharness/model"
 )
 
 // baseSet returns a defaulted, valid Advanced StatefulSet: selector app=<name>, one container.
@@ -24,4 +26,9 @@ func baseSet(ns, name string, replicas int32) *asv1.StatefulSet {
 	}
 	asv1.SetObjectDefaults_StatefulSet(s)
 	return s
+}
+
+// helperOrdinals: desired ordinals of a stored set, ascending (via the reference model).
+func helperOrdinals(set *asv1.StatefulSet) []int {
+	return model.Desired(int(*set.Spec.Replicas), parseSlots(set))
 }
